@@ -555,6 +555,49 @@ func runCliAndReaders(h *H, prop string, n int) {
 	os.RemoveAll(work)
 	os.Remove(exe)
 
+	// ReadPeerNamesFromCsv: duplicate names at every position, empty records
+	for k := 0; k < n; k++ {
+		names := g.peerNames(g.intn(5) + 1)
+		var recs [][]string
+		for _, nm := range names {
+			rec := []string{nm}
+			if g.intn(4) == 0 {
+				rec = append(rec, "extra")
+			}
+			recs = append(recs, rec)
+		}
+		switch g.pick("ok", "ok", "dup-first", "dup-last", "dup-mid", "dup-adjacent") {
+		case "dup-first":
+			recs = append(recs, []string{names[0]})
+			g.count("names:dup-first")
+		case "dup-last":
+			recs = append(recs, []string{names[len(names)-1]})
+		case "dup-mid":
+			recs = append(recs, []string{names[len(names)/2]})
+		case "dup-adjacent":
+			recs = append([][]string{{names[0]}}, recs...)
+		}
+		b := csvBytes(recs)
+		parsed, okp := csvParseN(b, -1)
+		w := h.line(prop, "readnames").records(parsed).Bool(okp).Bar()
+		rd := csv.NewReader(bytes.NewReader(b))
+		rd.FieldsPerRecord = -1
+		pan := safely(func() {
+			got, idx, err := basic.ReadPeerNamesFromCsv(rd)
+			if err != nil {
+				w.Str("err")
+				return
+			}
+			w.Str("ok").Int(len(got))
+			for _, nm := range got {
+				w.Str(hexStr(nm)).Int(idx[nm])
+			}
+		})
+		if pan != "" {
+			w.Str("panic")
+		}
+		h.emit(w)
+	}
 	// library CSV readers
 	for k := 0; k < n; k++ {
 		dim := g.intn(5) + 1
